@@ -122,7 +122,7 @@ def exhaustive(tier):
                 yield '%s %d %x' % (op, bits, v)
 
 
-def gen(rng, tier):
+def _gen(rng, tier):
     n = 30000 if tier == 'quick' else 1500000
     yield from exhaustive(tier)
     # every width: the fixed boundary set (deterministic part)
@@ -171,3 +171,38 @@ def gen(rng, tier):
             buf = bytes(rng.choice([0, 0xaa, 0xff, rng.getrandbits(8)]) for _ in range(L))
             yield '%s %d %x %s' % (rng.choice(COPY), bits, v, bs(buf))
             k += 1
+
+
+# ----------------------------------------------------------------------------------------------
+# which decoder path / outcome class each generated case exercises (reported in the evidence)
+CLASSES = {}
+
+
+def classify(c):
+    t = c.split(' ')
+    op = t[0]
+    if op not in ('try_le', 'try_be', 'from_le_slice', 'from_be_slice', 'from_le_bytes', 'from_be_bytes'):
+        return
+    bits = int(t[1])
+    b = bytes.fromhex(t[2]) if t[2] != '-' else b''
+    nb = nbytes(bits)
+    le = '_le' in op
+    v = int.from_bytes(b, 'little' if le else 'big')
+    if len(b) > nb:
+        k = 'too-long'
+    else:
+        path = 'fast-path' if nb % 8 == 0 and len(b) == nb else 'byte-loop'
+        masked = 'masked-top' if bits % 64 else 'whole-limbs'
+        k = '%s/%s/%s' % (path, masked, 'accept' if v < (1 << bits) else 'REJECT-excess-bits')
+    CLASSES[k] = CLASSES.get(k, 0) + 1
+
+
+def gen(rng, tier):
+    CLASSES.clear()
+    for c in _gen(rng, tier):
+        classify(c)
+        yield c
+
+
+def extra_checks(tier, rng, findings):
+    return {'violations': [], 'known': {}, 'coverage': {'decoder_path_classes': dict(sorted(CLASSES.items()))}}
